@@ -2,6 +2,7 @@ package main
 
 import (
 	"encoding/json"
+	"errors"
 	"flag"
 	"fmt"
 	"os"
@@ -107,6 +108,12 @@ func starArgs(w, p string) []interface{} {
 var fwdKinds = []interface{}{
 	true, int(-42), int8(7), int16(-300), int32(65), int64(1 << 40), uint(42), uint8(200), uint16(9), uint32(77), uint64(1 << 50), uintptr(4096),
 	float32(1.5), float64(-2.25), complex64(1 + 2i), complex128(-1.5 + 0.5i), "str\"q", []byte("by\x00"), nil,
+	// values with formatting methods of their own, nil receivers (fmt prints <nil> when the method of a nil
+	// pointer operand panics), panicking methods, composites
+	strStringer("s"), errors.New("e"), &errT{"pe"}, valErr{"ve"}, goStr{"g"}, echoFormatter{"t"}, &echoFormatter{"p"},
+	(*echoFormatter)(nil), (*ptrStringer)(nil), (*nilOKStringer)(nil), (*errT)(nil), &ptrStringer{"x"},
+	panicStringer{"boom"}, panicFormatter{"fboom"}, namedInt(5), namedString("ns"),
+	[]interface{}{1, "a", nil}, map[string]int{"a": 1}, struct{ A, b interface{} }{1, "x"}, &inner{1, "s", nil}, [2]bool{true, false},
 }
 
 func judgeFwd(rep *lib.Report, ln fwdLine, haveModel bool) {
